@@ -233,9 +233,12 @@ def run_impl(inp, extra_kwargs=None, predictor=None):
 
 def cfg_tokens(inp, maxsize=30, maxn=10, vel=None, drop=False, opt=True):
     w, B = weights(inp["sr"])
-    return "w=%s B=%d mem=%d maxn=%d maxsize=%d vel=%s drop=%d opt=%d" % (
+    # numba / hybrid: numba_link also raises when a source has more than 9 forward candidates
+    ncap = inp.get("strategy") in ("numba", "hybrid")
+    return "w=%s B=%d mem=%d maxn=%d maxsize=%d vel=%s drop=%d opt=%d ncap=%d" % (
         ",".join(map(str, w)), B, inp["memory"], maxn, maxsize,
-        "-" if not vel else ",".join(str(int(v)) for v in vel), 1 if drop else 0, 1 if opt else 0)
+        "-" if not vel else ",".join(str(int(v)) for v in vel), 1 if drop else 0, 1 if opt else 0,
+        1 if ncap else 0)
 
 
 def lrun_line(inp, levels, **kw):
